@@ -27,7 +27,7 @@
    Class scopes are covered by correspondence + execution oracle only. *)
 From Coq Require Import NArith List Bool.
 From Verif Require Import Scope.PySyntax Scope.Finder Scope.PySem Scope.Fragment Scope.FinderProofs Scope.UnusedProofs
-                          Scope.Stage2Final Scope.Stage2Unused Scope.Stage3Final.
+                          Scope.Stage2Final Scope.Stage2Unused Scope.Stage3Final Scope.ScanMissing.
 Import ListNotations.
 
 (* stage 1, per occurrence: pyflyby reports a name rooted at n on line l  <->  the read of n on line l
@@ -357,3 +357,40 @@ Theorem C05_unused_sound_stage3 : forall bi ns p, u3_block p = true -> star_free
   forall ln n, ~ In (ln, n, Bound (BImp l i)) (pysem bi ns p).
 Proof. exact u3_unused_sound. Qed.
 Print Assumptions C05_unused_sound_stage3.
+
+
+(* ---------- the missing list of scan_for_import_issues (unused-import tracking ON: what tidy-imports adds imports from) ----------
+   On stage-2 / stage-3 programs whose import statements - wherever they stand: module level, function bodies, compound
+   statements - bind one-component keys (`import m`, `import a.b as c`, `from m import x [as y]`; no __future__;
+   Fragment.ui_block) the tracking-on run, with its use-checker entries erased, IS the tracking-off run
+   (Stage2Erase.er_vblock / Stage3Erase.er_vblock3), so the two missing lists are equal and the per-occurrence theorems
+   carry over.  (Plain dotted imports `import a.b` store a prefix entry and attribute stores are checked only with
+   tracking on - C05_attrstore_reported_when_tracking - so outside ui_block / the stages the two lists differ.) *)
+Theorem C05_scan_missing_is_find_missing_stage3 : forall bi ns p, s3_block p = true -> ui_block p = true ->
+  fst (finder bi ns true p) = fst (finder bi ns false p).
+Proof. exact scan_missing_stage3. Qed.
+Print Assumptions C05_scan_missing_is_find_missing_stage3.
+Theorem C05_scan_missing_sound_stage2 : forall bi ns p, s2_block p = true -> ui_block p = true -> star_free bi ns = true ->
+  forall l n, In (l, n, Unbound) (pysem bi ns p) -> exists a, In (l, n :: a) (fst (finder bi ns true p)).
+Proof. exact s2_scan_missing_sound. Qed.
+Print Assumptions C05_scan_missing_sound_stage2.
+Theorem C05_scan_missing_precise_stage2 : forall bi ns p, s2_block p = true -> ui_block p = true -> star_free bi ns = true ->
+  forall l n a, In (l, n :: a) (fst (finder bi ns true p)) ->
+  In (l, n, Unbound) (pysem bi ns p) \/ In (l, n, UnboundLocal) (pysem bi ns p).
+Proof. exact s2_scan_missing_precise. Qed.
+Print Assumptions C05_scan_missing_precise_stage2.
+Theorem C05_scan_missing_sound_stage3 : forall bi ns p, s3_block p = true -> ui_block p = true -> star_free bi ns = true ->
+  forall l n, In (l, n, Unbound) (pysem bi ns p) -> exists a, In (l, n :: a) (fst (finder bi ns true p)).
+Proof. exact s3_scan_missing_sound. Qed.
+Print Assumptions C05_scan_missing_sound_stage3.
+Theorem C05_scan_missing_precise_stage3 : forall bi ns p, s3_block p = true -> ui_block p = true -> star_free bi ns = true ->
+  forall l n a, In (l, n :: a) (fst (finder bi ns true p)) ->
+  In (l, n, Unbound) (pysem bi ns p) \/ In (l, n, UnboundLocal) (pysem bi ns p).
+Proof. exact s3_scan_missing_precise. Qed.
+Print Assumptions C05_scan_missing_precise_stage3.
+(* a plain dotted import is outside ui_block, and there the two lists do differ: `import a.b` / `a.c.d`:
+   with tracking on the key `a` holds a prefix entry ... the same verdict here; the difference shows with an attribute
+   store through an unbound name (W_attrstore above): reported only with tracking on *)
+Example C05_scan_missing_differs_outside :
+  fst (finder [] [[]] true W_attrstore) <> fst (finder [] [[]] false W_attrstore).
+Proof. vm_compute. discriminate. Qed.
